@@ -19,18 +19,20 @@ type item struct {
 const foreignCall = "N0OTH-3"
 const foreignLocal = "W9ZZZ-4"
 
-func buildItems(p *Plan) []item {
-	frames := p.Script.Frames
+// buildItems lays out the script of one session; fault is the plan's malformed
+// transmission when this session carries it.
+func buildItems(sc *Script, fault *Fault) []item {
+	frames := sc.Frames
 	if len(frames) > 400 {
 		frames = frames[:400]
 	}
 	var items []item
 	for j := 0; j <= len(frames); j++ {
-		for i := range p.Script.Foreign {
+		for i := range sc.Foreign {
 			if i >= 40 {
 				break
 			}
-			f := &p.Script.Foreign[i]
+			f := &sc.Foreign[i]
 			b := f.Before
 			if b < 0 {
 				b = -b
@@ -39,13 +41,13 @@ func buildItems(p *Plan) []item {
 				items = append(items, item{data: -1, foreign: f})
 			}
 		}
-		if p.Fault != nil {
-			b := p.Fault.Before
+		if fault != nil {
+			b := fault.Before
 			if b < 0 {
 				b = -b
 			}
 			if b%(len(frames)+1) == j {
-				items = append(items, item{data: -1, fault: p.Fault})
+				items = append(items, item{data: -1, fault: fault})
 			}
 		}
 		if j < len(frames) {
@@ -151,73 +153,100 @@ func (r *run) faultBytes(f *Fault, k agwtnc.ConnKey) (b []byte, closeAfter bool)
 // unread is the number of data frames sent that the reader still has to get,
 // and whether the reader has ended. Bytes the script has given up on (see
 // pump) do not count.
-func (r *run) unread(s *agwtnc.Session, k agwtnc.ConnKey) (int, bool) {
-	sn := s.Snapshot()
+func (r *run) unread(se *sess, s *agwtnc.Session) (int, bool) {
+	lens := s.SentLens(se.id)
 	r.mu.Lock()
-	got, done, lost := len(r.readData), r.readDone, r.lostBytes
+	got, done, lost := len(se.readData), se.readDone, se.lostBytes
 	r.mu.Unlock()
-	for _, c := range sn.Conns {
-		if c.Key != k {
-			continue
-		}
-		total := 0
-		for _, pl := range c.SentPayloads {
-			total += len(pl)
-		}
-		left := total - got - lost
-		n := 0
-		for i := len(c.SentPayloads) - 1; i >= 0 && left > 0; i-- {
-			left -= len(c.SentPayloads[i])
-			n++
-		}
-		return n, done
+	left := sum(lens) - got - lost
+	n := 0
+	for i := len(lens) - 1; i >= 0 && left > 0; i-- {
+		left -= lens[i]
+		n++
 	}
-	return 0, done
+	return n, done
 }
 
 // giveUpAfter is how long the script waits for the reader to make progress
 // before it concludes that what it sent will never be read (frames lost in the
 // library) and carries on.
-func (r *run) giveUpAfter() time.Duration {
+func (r *run) giveUpAfter(se *sess) time.Duration {
 	p := r.p
-	think := clamp(maxOf(p.Client.ReadThinkMs, 0), 0, 10000)
-	transit := (clamp(maxOf(p.Script.Frames, 1), 1, 2048) + agwtnc.HeaderLen) * clamp(maxOf(p.Link.BA.LatUs, 100), 0, 1000000) / 1000
+	think := clamp(maxOf(se.sp.Client.ReadThinkMs, 0), 0, 10000)
+	transit := (clamp(maxOf(se.frames(), 1), 1, 2048) + agwtnc.HeaderLen) * clamp(maxOf(p.Link.BA.LatUs, 100), 0, 1000000) / 1000
 	return ms(think + transit + 2000)
 }
 
-// startPump is called when the model reports a connection established.
-func (r *run) startPump(s *agwtnc.Session, k agwtnc.ConnKey) {
+// sessionFor returns the session that is dialling k right now. When no dial
+// names exactly k (the library put other calls or another port into its connect
+// request: the host-frames clause reports that) and a single dial is under
+// way, the connection is that dial's.
+func (r *run) sessionFor(k agwtnc.ConnKey) *sess {
 	r.mu.Lock()
-	if r.have {
-		r.mu.Unlock()
-		return // only the first connection is the one under test
+	defer r.mu.Unlock()
+	var only *sess
+	n := 0
+	for _, se := range r.ss {
+		if !se.dialling || se.have {
+			continue
+		}
+		if se.key == k {
+			return se
+		}
+		only = se
+		n++
 	}
-	r.have, r.key, r.sess = true, k, s
-	r.items = buildItems(r.p)
-	r.mu.Unlock()
-	r.at(ms(r.p.Script.StartDelayMs), func() { r.pump(s, k, 0, 0, 0, 0) })
+	if n == 1 && k.Remote != foreignCall {
+		only.key = k
+		return only
+	}
+	return nil
 }
 
-func (r *run) finishPump(s *agwtnc.Session, k agwtnc.ConnKey, completed bool) {
+// startPump is called when the model reports the connection of a session
+// established (id: its incarnation in the model).
+func (r *run) startPump(se *sess, s *agwtnc.Session, id int) {
 	r.mu.Lock()
-	r.pumpDone, r.pumpDoneAt = true, r.sim.Now()
+	if se.have {
+		r.mu.Unlock()
+		return // a session has one connection
+	}
+	se.have, se.id = true, id
+	var fault *Fault
+	if f := r.p.Fault; f != nil && clamp(f.Session, 0, maxSessions-1)%len(r.ss) == se.idx {
+		fault = f
+	}
+	se.items = buildItems(se.sp.Script, fault)
 	r.mu.Unlock()
-	r.sim.Logf("tnc: script ends (completed=%v)", completed)
-	if completed && r.p.Script.End == "remote-disconnect" {
-		r.at(ms(r.p.Script.EndDelayMs), func() { s.Disconnect(k) })
+	r.at(ms(se.sp.Script.StartDelayMs), func() { r.pump(se, s, 0, 0, 0, 0) })
+}
+
+func (r *run) finishPump(se *sess, s *agwtnc.Session, completed bool) {
+	r.mu.Lock()
+	se.pumpDone, se.pumpDoneAt = true, r.sim.Now()
+	r.mu.Unlock()
+	r.sim.Logf("tnc: %sscript ends (completed=%v)", tag(se), completed)
+	if completed && se.sp.Script.End == "remote-disconnect" {
+		r.at(ms(se.sp.Script.EndDelayMs), func() {
+			if s.Current(se.id) {
+				s.Disconnect(se.key)
+			}
+		})
 	}
 }
 
 // pump sends the next TCP write of the script. pos: next item; w: write count
 // (gap tape index); g: group tape index; inBurst: frames left in the current burst.
-func (r *run) pump(s *agwtnc.Session, k agwtnc.ConnKey, pos, w, g, inBurst int) {
-	p := r.p
-	if pos >= len(r.items) {
-		r.finishPump(s, k, true)
+func (r *run) pump(se *sess, s *agwtnc.Session, pos, w, g, inBurst int) {
+	p, sc, k := r.p, se.sp.Script, se.key
+	if pos >= len(se.items) {
+		r.finishPump(se, s, true)
 		return
 	}
-	if st, _, _ := s.ConnState(k); st != "connected" {
-		r.finishPump(s, k, false)
+	if !s.Current(se.id) {
+		// the connection is over (or the station has connected anew: that is
+		// another session's connection)
+		r.finishPump(se, s, false)
 		return
 	}
 	if p.Regime == "burst" && pos == 0 {
@@ -228,65 +257,66 @@ func (r *run) pump(s *agwtnc.Session, k agwtnc.ConnKey, pos, w, g, inBurst int) 
 		// mutex -- not a durable block, so the simulated clock (and the sleeping
 		// reader with it) would never move again. Real time has no such problem.
 		r.mu.Lock()
-		wd := r.writerDone
+		wd, since := se.writerDone, se.attemptAt
 		r.mu.Unlock()
 		if !wd {
-			if r.sim.Now() > 2*opBudget {
-				r.finishPump(s, k, false)
+			if r.sim.Now()-since > 2*opBudget {
+				r.finishPump(se, s, false)
 				return
 			}
-			r.at(50*time.Millisecond, func() { r.pump(s, k, pos, w, g, inBurst) })
+			r.at(50*time.Millisecond, func() { r.pump(se, s, pos, w, g, inBurst) })
 			return
 		}
 	}
-	unread, readerDone := r.unread(s, k)
+	unread, readerDone := r.unread(se, s)
 	r.mu.Lock()
-	if unread > r.maxUnread {
-		r.maxUnread = unread
+	if unread > se.maxUnread {
+		se.maxUnread = unread
 	}
+	refusalSince := r.refusalSince
 	r.mu.Unlock()
 	regime := p.Regime
 	fk := agwtnc.ConnKey{Port: k.Port, Local: k.Local, Remote: foreignCall}
 	if regime == "paced" {
 		// quiescence: while the library is still refusing an unaccepted inbound
 		// connection nothing else is sent
-		if st, _, _ := s.ConnState(fk); st == "connected" && r.sim.Now()-r.refusalSince < 3*time.Minute {
-			r.at(50*time.Millisecond, func() { r.pump(s, k, pos, w, g, inBurst) })
+		if st, _, _ := s.ConnState(fk); st == "connected" && r.sim.Now()-refusalSince < 3*time.Minute {
+			r.at(50*time.Millisecond, func() { r.pump(se, s, pos, w, g, inBurst) })
 			return
 		}
 	}
 	if regime != "burst" {
 		if readerDone {
-			r.finishPump(s, k, false)
+			r.finishPump(se, s, false)
 			return
 		}
-		if unread > clamp(p.Script.Ahead, 0, 6) {
+		if unread > clamp(sc.Ahead, 0, 6) {
 			r.mu.Lock()
-			if r.readCalls != r.gateCalls || r.gateSince == 0 || s.InFlight() > 0 {
+			if se.readCalls != se.gateCalls || se.gateSince == 0 || s.InFlight() > 0 {
 				// progress, or the link is still busy delivering: not stuck
-				r.gateCalls, r.gateSince = r.readCalls, r.sim.Now()
+				se.gateCalls, se.gateSince = se.readCalls, r.sim.Now()
 			}
-			stuck := r.sim.Now()-r.gateSince > r.giveUpAfter()
+			stuck := r.sim.Now()-se.gateSince > r.giveUpAfter(se)
 			if stuck {
-				sent, _ := s.SentBytes(k)
-				r.lostBytes = sent - len(r.readData)
-				r.gateSince = 0
+				se.lostBytes = sum(s.SentLens(se.id)) - len(se.readData)
+				se.gateSince = 0
 			}
+			lost := se.lostBytes
 			r.mu.Unlock()
 			if stuck {
-				r.sim.Logf("tnc: script stops waiting for the reader (%d bytes never read)", r.lostBytes)
+				r.sim.Logf("tnc: %sscript stops waiting for the reader (%d bytes never read)", tag(se), lost)
 			}
-			r.at(50*time.Millisecond, func() { r.pump(s, k, pos, w, g, inBurst) })
+			r.at(50*time.Millisecond, func() { r.pump(se, s, pos, w, g, inBurst) })
 			return
 		}
 		r.mu.Lock()
-		r.gateSince = 0
+		se.gateSince = 0
 		r.mu.Unlock()
 	}
 	// how many items go into this TCP write
 	n := 1
 	if regime == "coalesced" {
-		n = clamp(core.TapeAt(p.Script.Group, g, 2), 1, 8)
+		n = clamp(core.TapeAt(sc.Group, g, 2), 1, 8)
 		g++
 	}
 	var frames []agwtnc.Frame
@@ -296,30 +326,32 @@ func (r *run) pump(s *agwtnc.Session, k agwtnc.ConnKey, pos, w, g, inBurst int) 
 			frames = nil
 		}
 	}
-	for ; n > 0 && pos < len(r.items); n, pos = n-1, pos+1 {
-		it := r.items[pos]
+	for ; n > 0 && pos < len(se.items); n, pos = n-1, pos+1 {
+		it := se.items[pos]
 		switch {
 		case it.data >= 0:
-			r.mu.Lock()
 			off := 0
 			for j := 0; j < it.data; j++ {
-				off += clamp(p.Script.Frames[j], 1, 2048)
+				off += clamp(sc.Frames[j], 1, 2048)
 			}
-			r.mu.Unlock()
-			if f, ok := s.DataFrame(k, pattern(1, off, clamp(p.Script.Frames[it.data], 1, 2048))); ok {
+			if f, ok := s.DataFrame(k, pattern(se.pat(1), off, clamp(sc.Frames[it.data], 1, 2048))); ok {
 				frames = append(frames, f)
 			}
 		case it.foreign != nil:
 			if f, ok := r.foreignFrame(it.foreign, k); ok {
 				frames = append(frames, f)
-			} else if st, _, _ := s.ConnState(fk); st != "connected" {
-				// (one station cannot connect twice at the same time)
+			} else if st, _, _ := s.ConnState(fk); st != "connected" && r.groupSize(se) == 1 {
+				// (one station cannot connect twice at the same time; and while
+				// another session of the run may be waiting in Accept, the call
+				// would be answered instead of refused)
 				flush()
-				r.refusalSince = r.sim.Now()
+				r.mu.Lock()
+				r.refusalSince, r.refusalKey = r.sim.Now(), fk
+				r.mu.Unlock()
 				s.InboundConnect(k.Port, foreignCall, k.Local)
 			}
 			r.mu.Lock()
-			r.foreignSent++
+			se.foreignSent++
 			r.mu.Unlock()
 		case it.fault != nil:
 			flush()
@@ -331,17 +363,17 @@ func (r *run) pump(s *agwtnc.Session, k agwtnc.ConnKey, pos, w, g, inBurst int) 
 			s.WriteRaw(it.fault.Kind, b)
 			if closeAfter {
 				s.CloseLink()
-				r.finishPump(s, k, false)
+				r.finishPump(se, s, false)
 				return
 			}
 		}
 	}
 	flush()
 	// when does the next write happen
-	gap := ms(clamp(core.TapeAt(p.Script.GapMs, w, 0), 0, 60000))
+	gap := ms(clamp(core.TapeAt(sc.GapMs, w, 0), 0, 60000))
 	if regime == "burst" {
 		if inBurst <= 0 {
-			inBurst = clamp(core.TapeAt(p.Script.Group, g, 20), 1, 400)
+			inBurst = clamp(core.TapeAt(sc.Group, g, 20), 1, 400)
 			g++
 		}
 		inBurst--
@@ -349,5 +381,16 @@ func (r *run) pump(s *agwtnc.Session, k agwtnc.ConnKey, pos, w, g, inBurst int) 
 			gap = 0
 		}
 	}
-	r.at(gap, func() { r.pump(s, k, pos, w+1, g, inBurst) })
+	r.at(gap, func() { r.pump(se, s, pos, w+1, g, inBurst) })
+}
+
+// groupSize is the number of sessions that may run at the same time as se.
+func (r *run) groupSize(se *sess) int {
+	n := 0
+	for _, o := range r.ss {
+		if o.group == se.group {
+			n++
+		}
+	}
+	return n
 }
